@@ -1022,22 +1022,6 @@ def check_replay(chk):
         chk.tie_broken("correspondence K1: Subjects/ReplaySched.v (both scheduler modes) vs ReplaySubject", detail)
     chk.cov["traces_validated_against_impl"] = len(gal2)
     chk.cov["disagreements_checked"] = len(gal2)
-    prelude = (f"Definition model (c : (option Z * option Z) * rhistory Z) := "
-               f"run_rhistory (fst (fst c)) (snd (fst c)) {FUEL} (snd c).\n"
-               "Definition out_eqb (a b : list (@revent Z) * bool) := "
-               "list_eqb revent_eqb (fst a) (fst b) && Bool.eqb (snd a) (snd b).\n")
-    bad, logs = correspond(pid, "k1", REPLAY_IMPORTS,
-                           "((option Z * option Z) * rhistory Z) * (list (@revent Z) * bool)", gal, prelude)
-    chk.cov["traces_validated_against_impl"] += len(gal)
-    chk.cov["disagreements_checked"] += len(gal)
-    if bad:
-        firsts = [i for i in bad if i >= 0][:3]
-        detail = {"n_disagreements": len(bad), "logs": logs[:1],
-                  "first ((buffer_size, window), history) / implementation log": [gal[i] for i in firsts]}
-        if firsts:
-            detail["model_says"] = lib.coq_show(pid, REPLAY_IMPORTS, f"model {gal[firsts[0]][0]}", prelude)
-            detail["history"] = hist_json(kept[firsts[0]][0])
-        chk.tie_broken("correspondence K1: Subjects/Replay.v vs ReplaySubject on a VirtualTimeScheduler", detail)
     chk.cov["distinct_nontrivial"] = len(nontrivial) + len(nontrivial_sync)
     chk.cov["distinct_nontrivial_by_scheduler"] = {"VirtualTimeScheduler": len(nontrivial),
                                                    "CurrentThreadScheduler": len(nontrivial_sync)}
@@ -1057,17 +1041,19 @@ def check_replay(chk):
     step = max(1, len(kept) // 5)
     chk.add_samples([{"history": hist_json(h), "buffer_size": bs, "window": w} for (h, bs, w) in kept[step - 1::step]])
     return chk.finish(
-        trusted_extra=["K1 driver harness/subj.py; VirtualTimeScheduler (real) used as the subject's scheduler and "
-                       "drained by the driver with start() after every top-level call; its FIFO behaviour at one "
-                       "instant is modelled (r_sched) and covered by the correspondence",
+        trusted_extra=["K1 driver harness/subj.py; two scheduler modes: (a) the DEFAULT CurrentThreadScheduler "
+                       "(real trampoline; nothing is drained by the driver), (b) a real VirtualTimeScheduler drained by "
+                       "the driver with start() after every top-level call; the FIFO of either is modelled (r_sched) "
+                       "and covered by the correspondence with Subjects/ReplaySched.v",
                        "ScheduledObserver, SerialDisposable, RemovableDisposable, AutoDetachObserver modelled in "
                        "Subjects/Replay.v"],
         assumptions=["single thread; observer callbacks do not raise",
                      "fewer than 100 scheduler actions per drain (VirtualTimeScheduler.start bumps the clock "
                      "after 100 actions at one instant; such runs are discarded and counted: spinning_discarded)",
                      "buffer_size >= 0 or None; clock advances >= 0; window in whole ticks",
-                     "delivery through other schedulers (the default CurrentThreadScheduler trampoline) is not "
-                     "covered by this check"])
+                     "default-scheduler mode: the scheduler clock is the wall clock, so only window None or "
+                     "10**6 s is used there (time windows are exercised in virtual-time mode); other schedulers "
+                     "(ImmediateScheduler, event loops, thread pools) are not exercised"])
 
 
 def replay_replay(chk, path):
@@ -1077,8 +1063,13 @@ def replay_replay(chk, path):
         print(json.dumps(d, indent=1))
         return 1
     h = hist_from_json(d["history"])
-    rec, probe, ok = run_replay(h, d["buffer_size"], d["window"])
-    bad = oracle_replay(h, d["buffer_size"], d["window"], rec, probe)
+    sync = str(d.get("scheduler", "")).startswith("default")
+    if sync:
+        rec, probe, ok = run_replay_sync(h, d["buffer_size"], d["window"])
+    else:
+        rec, probe, ok = run_replay(h, d["buffer_size"], d["window"])
+    bad = oracle_replay(h, d["buffer_size"], d["window"], rec, probe, sync=sync)
+    print("scheduler", "default CurrentThreadScheduler" if sync else "VirtualTimeScheduler")
     print("history", h, "buffer_size", d["buffer_size"], "window", d["window"])
     print("implementation log", g_log(rec, "R", "RE"), "bare-subscribe probe", probe)
     for s, dd in bad:
